@@ -9,6 +9,8 @@ import (
 	"time"
 
 	corev1 "k8s.io/api/core/v1"
+	apiequality "k8s.io/apimachinery/pkg/api/equality"
+	"k8s.io/apimachinery/pkg/api/resource"
 	metav1 "k8s.io/apimachinery/pkg/apis/meta/v1"
 	"pgregory.net/rapid"
 	"sigs.k8s.io/controller-runtime/pkg/client"
@@ -707,4 +709,116 @@ func TestC11Queue(t *testing.T) {
 		}
 	})
 	rapid.Check(t, func(rt *rapid.T) { c02Queue(rec, rt, "C11") })
+}
+
+// TestC13Queue: the PodTemplate clause of C13 under event-driven scheduling with the repository's own watch wiring.
+// Nobody calls the PodTemplate reconciler by hand: after every edit of the ExtendedDaemonSet (another template, the
+// same template with a resource quantity written in another notation - a new text, hence a new hash -, a label, a
+// status-only change by the controllers) the PodTemplate must equal spec.template and carry its hash once
+// 2 x reconcileFrequency + 2s have passed; and there is one replica set per template text.
+func TestC13Queue(t *testing.T) {
+	rec := evid.New("TestC13Queue", "C13", "event-driven scheduling with the repository's own watch wiring: 1-3 nodes, reconcileFrequency 1s/2s/10s, template with a memory request; 2-5 edits from {another image, the memory request written in another notation (512Mi <-> 536870912: same quantity, new text and hash), a metadata label on the ExtendedDaemonSet, the previous template again}, each followed by 2 x reconcileFrequency + 2s; oracle: the PodTemplate equals spec.template and carries its hash, exactly one replica set carries the hash of spec.template, rs-identity after every reconcile; non-trivial = a notation-only edit; distinct by configuration")
+	t.Cleanup(func() {
+		if !t.Failed() {
+			rec.Done()
+		}
+	})
+	rapid.Check(t, func(rt *rapid.T) {
+		nodes := rapid.IntRange(1, 3).Draw(rt, "nodes")
+		freq := rapid.SampledFrom([]time.Duration{time.Second, 2 * time.Second, 10 * time.Second}).Draw(rt, "reconcileFrequency")
+		ne := rapid.IntRange(2, 5).Draw(rt, "edits")
+		var edits []string
+		for i := 0; i < ne; i++ {
+			edits = append(edits, rapid.SampledFrom([]string{"image", "notation", "notation", "label", "previous"}).Draw(rt, fmt.Sprintf("e%d", i)))
+		}
+		desc := fmt.Sprintf("nodes=%d reconcileFrequency=%s edits=%v", nodes, freq, edits)
+		var viol []mon.V
+		w := &World{rec: rec, cfg: WorldCfg{Monitors: mon.Of("rs-identity", "no-panic"), Property: "C13"}, H: mon.NewHistory(), RSSeen: map[string]bool{}, RolesSynced: map[string]bool{}, Facts: map[string]int{}, lastSyncAt: map[string]time.Time{}, Det: true}
+		w.OnViolation = func(vs []mon.V) { viol = append(viol, vs...) }
+		w.C = sim.New(sim.Options{})
+		for i := 0; i < nodes; i++ {
+			w.C.AddNode(fmt.Sprintf("n%d", i+1), map[string]string{"zone": "a", "tier": "a"}, nil)
+		}
+		st := edsv1.ExtendedDaemonSetSpecStrategy{ReconcileFrequency: &metav1.Duration{Duration: freq}}
+		st.RollingUpdate.MaxUnavailable = gen.ParseIntOrPercent("100%")
+		st.RollingUpdate.SlowStartAdditiveIncrease = gen.ParseIntOrPercent("10")
+		tpl := gen.LetterTemplate('A')
+		tpl.Spec.Containers[0].Resources.Requests = corev1.ResourceList{corev1.ResourceMemory: resource.MustParse("512Mi")}
+		k := sim.KeyOf("ns1", "foo")
+		w.EDS = append(w.EDS, k)
+		q := newWorkQueue(w)
+		stop := func() bool { return len(viol) > 0 }
+		q.env(func() {
+			w.C.Add(&edsv1.ExtendedDaemonSet{ObjectMeta: metav1.ObjectMeta{Namespace: "ns1", Name: "foo"}, Spec: edsv1.ExtendedDaemonSetSpec{Template: tpl, Strategy: st}})
+		})
+		settleD := 2*freq + 2*time.Second
+		check := func(when string) {
+			if stop() {
+				return
+			}
+			e := w.C.EDS(k.Namespace, k.Name)
+			want := oracle.TemplateHash(&e.Spec.Template)
+			var pt *corev1.PodTemplate
+			for _, x := range w.C.Snapshot().PodTemplates {
+				if x.Namespace == k.Namespace && x.Name == k.Name {
+					pt = x
+				}
+			}
+			switch {
+			case pt == nil:
+				viol = append(viol, mon.V{Property: "C13", Monitor: "podtemplate", Sig: "C13/podtemplate/missing/event-driven", Detail: fmt.Sprintf("%s: no PodTemplate %s after %s (%s)", when, settleD, k.Name, desc)})
+			case !apiequality.Semantic.DeepEqual(pt.Template, e.Spec.Template) || pt.Annotations[oracle.AnnTemplateHash] != want:
+				viol = append(viol, mon.V{Property: "C13", Monitor: "podtemplate", Sig: "C13/podtemplate/differs-from-spec/event-driven", Detail: fmt.Sprintf("%s: %s later the PodTemplate carries hash %s, spec.template hashes to %s (%s)", when, settleD, pt.Annotations[oracle.AnnTemplateHash], want, desc)})
+			}
+			n := 0
+			for _, rs := range w.rsOf(k) {
+				if rs.Annotations[oracle.AnnTemplateHash] == want && rs.DeletionTimestamp == nil {
+					n++
+				}
+			}
+			if n != 1 && !stop() {
+				viol = append(viol, mon.V{Property: "C13", Monitor: "rs-identity", Sig: "C13/rs-identity/replica-sets-for-template/event-driven", Detail: fmt.Sprintf("%s: %d replica sets carry the hash of spec.template (%s)", when, n, desc)})
+			}
+		}
+		q.runUntil(w.C.Now().Add(settleD+3*time.Second), 6000, stop)
+		check("after creation")
+		image, mem, prev := 'A', "512Mi", tpl
+		notation := false
+		for i, ed := range edits {
+			if stop() {
+				break
+			}
+			cur := w.C.EDS(k.Namespace, k.Name).Spec.Template
+			q.env(func() {
+				w.C.Tracef("-- edit %d: %s", i+1, ed)
+				_ = w.C.EditEDS(k.Namespace, k.Name, func(x *edsv1.ExtendedDaemonSet) {
+					switch ed {
+					case "image":
+						image++
+						x.Spec.Template.Spec.Containers[0].Image = "img:" + string(image)
+					case "notation":
+						notation = true
+						mem = map[string]string{"512Mi": "536870912", "536870912": "512Mi"}[mem]
+						x.Spec.Template.Spec.Containers[0].Resources.Requests = corev1.ResourceList{corev1.ResourceMemory: resource.MustParse(mem)}
+					case "label":
+						if x.Labels == nil {
+							x.Labels = map[string]string{}
+						}
+						x.Labels["team"] = fmt.Sprintf("t%d", i)
+					case "previous":
+						x.Spec.Template = prev
+					}
+				})
+			})
+			prev = cur
+			q.runUntil(w.C.Now().Add(settleD), 6000, stop)
+			check(fmt.Sprintf("after edit %d (%s)", i+1, ed))
+		}
+		rec.Case(notation, evid.FP(desc), fmt.Sprintf("frequency=%s", freq))
+		rec.Steps(q.Steps)
+		if notation && rec.WantSample() {
+			rec.Sample(desc)
+		}
+		settle(rt, rec, viol, map[string]interface{}{"config": desc, "trace": tail(w.C.Trace, 200)}, len(w.C.Trace), "config: "+desc+"\n--- trace (tail) ---\n"+strings.Join(tail(w.C.Trace, 80), "\n"))
+	})
 }
